@@ -177,6 +177,28 @@ class C07(Prop):
                 if lab not in range(1, 8) and (lab in reg_values('CwtClaimName') or lab < -65536): ops.append(mk('chain ClaimsSet ba1' + le + lk, k='look-alike'))
                 if lab not in range(1, 8): ops.append(mk('chain Header ba1' + le + lk, k='look-alike')); ops.append(mk('chain CoseSign1 b8440a1' + le + lk + 'f640', k='look-alike'))
                 if lab not in range(1, 6): ops.append(mk('chain CoseKey ba20104' + le + lk, k='look-alike'))
+        # coincidences: the same content at several places of one value — both header buckets alike, payload = signature, lists of
+        # identical signers / recipients / keys / critical labels' neighbours, all texts of a claims set alike, both parties alike
+        # (a de-duplication, a comparison between fields or a shared buffer only shows when they coincide)
+        for hm in ('a10126', 'a2012604423131', 'a11903e86774726163652d37', 'a201260fc25f4105ff' [:14] if False else 'a201261903e8a1616101'):
+            hb = bytes.fromhex(hm); pb = refcbor.head(2, len(hb)) + hb
+            for x in (b'\x41\x07', pb):
+                sg = b'\x83' + pb + hb + x; rc = b'\x83' + pb + hb + x
+                ops.append(mk('chain CoseSign1 b' + (b'\x84' + pb + hb + x + x).hex(), k='coincide')); ops.append(mk('chaint CoseSign1 b' + (b'\xd2\x84' + pb + hb + x + x).hex(), k='coincide'))
+                ops.append(mk('chain CoseMac0 b' + (b'\x84' + pb + hb + x + x).hex(), k='coincide')); ops.append(mk('chain CoseEncrypt0 b' + (b'\x83' + pb + hb + x).hex(), k='coincide'))
+                for n in (2, 3, 17):
+                    ops.append(mk('chain CoseSign b' + (b'\x84' + pb + hb + x + refcbor.head(4, n) + sg * n).hex(), k='coincide'))
+                    ops.append(mk('chain CoseEncrypt b' + (b'\x84' + pb + hb + x + refcbor.head(4, n) + rc * n).hex(), k='coincide'))
+                    ops.append(mk('chain CoseMac b' + (b'\x85' + pb + hb + x + x + refcbor.head(4, n) + rc * n).hex(), k='coincide'))
+                    ops.append(mk('chain Header b' + (b'\xa1\x07' + refcbor.head(4, n) + sg * n).hex(), k='coincide'))
+                ops.append(mk('chain CoseRecipient b' + (b'\x84' + pb + hb + x + b'\x82' + rc + rc).hex(), k='coincide'))
+        for n in (2, 3, 17): ops.append(mk('chain CoseKeySet b' + (refcbor.head(4, n) + bytes.fromhex('a2010402413a') * n).hex(), k='coincide'))
+        for tx in ('6161', '60', '6b746578742f706c61696e20'):
+            ops.append(mk('chain ClaimsSet ba301' + tx + '02' + tx + '03' + tx, k='coincide')); ops.append(mk('chain ClaimsSet ba401' + tx + '02' + tx + '03' + tx + '0741' + tx[2:4] if len(tx) == 4 else 'chain ClaimsSet ba301' + tx + '02' + tx + '03' + tx, k='coincide'))
+        for bx in ('4101', '40', '581a' + '5a' * 26):
+            ops.append(mk('chain PartyInfo b83' + bx * 3, k='coincide')); ops.append(mk('chain CoseKdfContext b840183' + bx * 3 + '83' + bx * 3 + '82188040', k='coincide'))
+            ops.append(mk('chain Header ba204' + bx + '05' + bx, k='coincide')); ops.append(mk('chain Header ba204' + bx + '06' + bx, k='coincide')); ops.append(mk('chain CoseKey ba3010402' + bx + '05' + bx, k='coincide'))
+            ops.append(mk('chain CoseKey ba5010402' + bx + '05' + bx + '20' + bx + '21' + bx, k='coincide'))
         # exhaustive short
         for t in ('Value', 'Label', 'Header', 'CoseKey', 'ClaimsSet', 'PartyInfo'):
             for a in range(256):
@@ -466,6 +488,17 @@ class C11(Prop):
             for piv in ('0a0b', '0c0d'):
                 h = '(hdr %s (crit) - b b0102 b%s (cs) (rest))' % (alg, piv)
                 for op in ('enc Header %s', 'tov Header %s', 'tobstr (ph - %s)', 'enc CoseSign1 (sign1 (ph - %s) (hdr - (crit) - b b b (cs) (rest)) - b)'): ops.append(mk(op % h, k='both-iv:stored'))
+        # coincidences in built values: both header buckets alike, byte fields alike, identical list elements, identical texts
+        for H in ('(hdr A-7 (crit) - b3131 b b (cs) (rest))', '(hdr - (crit) - b b b (cs) (rest i1000 t74726163652d37))', '(hdr A-7 (crit A1) A0 b0a b0a b (cs) (rest i99 b0a))', '(hdr A-7 (crit) - b0a b b0a (cs) (rest))'):
+            sg = '(sig (ph - %s) %s b0a)' % (H, H); rc = '(rcp (ph - %s) %s b0a (rcps))' % (H, H)
+            for op in ('enc CoseSign1 (sign1 (ph - %s) %s b0a b0a)' % (H, H), 'enc CoseMac0 (mac0 (ph - %s) %s b0a b0a)' % (H, H), 'enc CoseEncrypt0 (enc0 (ph - %s) %s b0a)' % (H, H),
+                       'enc CoseSign (sign (ph - %s) %s b0a (sigs %s %s %s))' % (H, H, sg, sg, sg), 'enc CoseEncrypt (enc (ph - %s) %s b0a (rcps %s %s))' % (H, H, rc, rc),
+                       'enc CoseMac (mac (ph - %s) %s b0a b0a (rcps %s %s %s))' % (H, H, rc, rc, rc), 'enc Header (hdr - (crit) - b b b (cs %s %s) (rest))' % (sg, sg), 'enct CoseSign1 (sign1 (ph - %s) %s b0a b0a)' % (H, H)):
+                ops.append(mk(op, k='coincide'))
+        for op in ('enc CoseKey (key A4 b0a - (ops) b0a (params i-1 b0a i-2 b0a))', 'enc CoseKeySet (keyset (key A4 b0a - (ops) b (params)) (key A4 b0a - (ops) b (params)) (key A4 b0a - (ops) b (params)))',
+                   'enc ClaimsSet (cwt t61 t61 t61 W5 W5 W5 b61 (rest))', 'enc ClaimsSet (cwt t t t W0 W0 W0 b (rest))', 'enc PartyInfo (party b0a b0a b0a)', 'enc CoseKdfContext (kdf A1 (party b0a b0a b0a) (party b0a b0a b0a) (supp i128 (ph - %s) b0a) (priv b0a b0a))' % C02.EMPTY,
+                   'enc ClaimsSet (cwt - - - F3ff8000000000000 F3ff8000000000000 F3ff8000000000000 - (rest))'):
+            ops.append(mk(op, k='coincide'))
         # long lists inside built values: every element is emitted (counter signatures, critical labels, signers, recipients, key
         # operations would need distinct registered values, extra parameters, SuppPrivInfo)
         E = C02.EMPTY
